@@ -347,12 +347,17 @@ class PPO(RLAlgorithm):
             action = action.unsqueeze(1)
 
         # Clip to action space during inference
+        inference_on_box = not self.training and isinstance(
+            self.action_space, spaces.Box
+        )
+        if inference_on_box and self.actor.squash_output:
+            # Scale the squashed action while it is still a tensor: the bounds held by
+            # the actor are tensors and cannot be combined with a numpy array
+            action = self.actor.scale_action(action)
+
         action = action.cpu().data.numpy()
-        if not self.training and isinstance(self.action_space, spaces.Box):
-            if self.actor.squash_output:
-                action = self.actor.scale_action(action)
-            else:
-                action = np.clip(action, self.action_space.low, self.action_space.high)
+        if inference_on_box and not self.actor.squash_output:
+            action = np.clip(action, self.action_space.low, self.action_space.high)
 
         return (
             action,
